@@ -419,9 +419,26 @@ fn run() {
                     if !thorough && shards == 3 && n == 2 && assign[0] > assign[1] {
                         continue;
                     }
-                    cases.push(Case1 { shards, malicious: false, hv_bits: 8, padding: false, reports: ms.clone(), assign, seed: seed + 11 });
+                    cases.push(Case1 { shards, malicious: false, hv_bits: 8, padding: false, reports: ms.clone(), assign: assign.clone(), seed: seed + 11 });
+                    // the proof-carrying mode on the same dry-shard inputs (all of them in thorough)
+                    if thorough || (shards == 2 && assign.iter().all(|a| *a == assign[0])) || n == 1 {
+                        cases.push(Case1 { shards, malicious: true, hv_bits: 8, padding: false, reports: ms.clone(), assign, seed: seed + 15 });
+                    }
                 }
             }
+        }
+    }
+    // no report at all on several shards
+    if !compact_quick {
+        for (shards, malicious) in [(2usize, false), (2, true), (3, false)] {
+            cases.push(Case1 { shards, malicious, hv_bits: 8, padding: false, reports: Vec::new(), assign: Vec::new(), seed: seed + 17 });
+        }
+    }
+    // dummy-record padding on inputs that leave shards without real rows
+    if !compact_quick {
+        for (shards, malicious) in [(2usize, false), (2, true), (3, false)] {
+            let reps = vec![Rep { conversion: false, mk: 4001, data: 9 }, Rep { conversion: true, mk: 4001, data: 5 }, Rep { conversion: true, mk: 4002, data: 3 }];
+            cases.push(Case1 { shards, malicious, hv_bits: 8, padding: true, reports: reps, assign: vec![0, 0, shards - 1], seed: seed + 16 });
         }
     }
     // 2./3. group shapes, wrap-around, saturation; several distributions and shard counts
